@@ -11,7 +11,7 @@ from .paths import Engine, Rule, path_of
 META = {
     'explanation': 'E-PATH typestate rules over TimeZone.h/.cpp, ZoneProcessorCache.h, both zone processors and '
                    'ZoneSpecifier.init_for_year: every use of a shared processor is preceded on all paths by the '
-                   'rebinding call; the cache returns a processor bound to the request; the cache-valid flag is '
+                   'rebinding call; the cache returns a processor bound to the request (its round-robin index by E-ABS); the cache-valid flag is '
                    'assigned on every path that overwrites key or content; E-GNF: the key stored by init() is the value '
                    'isFilled() was asked about and the fill helpers get the same year; ast def-use: init_for_year resets '
                    'everything its helpers accumulate into; createAbbreviation terminates the pooled buffer at the copied length.',
